@@ -47,7 +47,7 @@ func newC15World(trusting bool) *c15World {
 	w.Plant(0, types.Siacoins(1000), types.Siacoins(10))
 	w.Sec.EphemeralSectorStore.StoreSector(realSectorRoot, &realSector, nil, 1000)
 	cw := &c15World{w: w, contract: w.Contract, keys: map[string]types.PrivateKey{}, acct: map[string]types.Currency{}, attached: map[string][]string{}}
-	for _, n := range []string{"A", "B", "P", "Q"} {
+	for _, n := range []string{"A", "B", "P", "Q", "S"} {
 		cw.keys[n] = rhpx.Key("verif-c15-" + n)
 		cw.acct[n] = types.ZeroCurrency
 	}
@@ -135,7 +135,7 @@ func (c *c15World) checkLedger(op string, before rhpx.Snapshot) string {
 	}
 	// balances
 	accts := []proto4.Account{acc(c.keys["A"]), acc(c.keys["B"])}
-	pools := []proto4.Account{acc(c.keys["P"]), acc(c.keys["Q"])}
+	pools := []proto4.Account{acc(c.keys["P"]), acc(c.keys["Q"]), acc(c.keys["S"])}
 	snap := w.Snap(c.contract.ID, accts, pools)
 	for _, n := range []string{"A", "B"} {
 		if got := snap.Accounts[acc(c.keys[n])]; !got.Equals(c.acct[n]) {
@@ -146,7 +146,7 @@ func (c *c15World) checkLedger(op string, before rhpx.Snapshot) string {
 			return fmt.Sprintf("c15:balance-rpc|%s: RPCAccountBalance(%s) = %v, %v; model %v", op, n, got, err, c.acct[n])
 		}
 	}
-	for _, n := range []string{"P", "Q"} {
+	for _, n := range []string{"P", "Q", "S"} {
 		if got := snap.Pools[acc(c.keys[n])]; !got.Equals(c.acct[n]) {
 			return fmt.Sprintf("c15:balance|%s: pool %s holds %v, ledger model says %v", op, n, got, c.acct[n])
 		}
@@ -156,7 +156,10 @@ func (c *c15World) checkLedger(op string, before rhpx.Snapshot) string {
 	return ""
 }
 
-func c15Ops() []c15op {
+func c15Ops() []c15op { return c15OpsExt(false) }
+
+// c15OpsExt(true) appends the operations on a third pool S that the pool-order scenarios use.
+func c15OpsExt(poolOrder bool) []c15op {
 	var ops []c15op
 	fund := func(name string, mul, delta int) c15op {
 		return c15op{fmt.Sprintf("fund(%s,%dR%+d)", name, mul, delta), func(c *c15World) string {
@@ -353,7 +356,93 @@ func c15Ops() []c15op {
 		}
 		return ""
 	}})
+	if poolOrder {
+		ops = append(ops, replenish(true, []string{"P", "Q", "S"}, 1), attach("A", "S", "S", false), detach("A", "Q", "A"), detach("A", "S", "S"))
+	}
 	return ops
+}
+
+// c15PoolOrder: attachment order is what decides which pool pays. Three pools holding exactly one read each
+// are attached to an empty account in every order; then every sequence of detach / re-attach / read
+// operations of the given length is run and the individual pool balances are compared with the model after
+// every step (a pool that is detached and attached again moves to the end of the order).
+func c15PoolOrder() int {
+	all := c15OpsExt(true)
+	byName := map[string]c15op{}
+	for _, o := range all {
+		byName[o.name] = o
+	}
+	get := func(n string) c15op {
+		o, ok := byName[n]
+		if !ok {
+			panic("c15: no op " + n)
+		}
+		return o
+	}
+	setup := get("replenishPools([P Q S],1R)")
+	att := map[string]c15op{"P": get("attach(A<-P,signedBy=P,expired=false)"), "Q": get("attach(A<-Q,signedBy=Q,expired=false)"), "S": get("attach(A<-S,signedBy=S,expired=false)")}
+	free := []c15op{get("detach(A,P,signedBy=A)"), get("detach(A,Q,signedBy=A)"), get("detach(A,S,signedBy=S)"), get("read(A,0,64)"), att["P"], att["Q"]}
+	n := 3
+	if run.Thorough() {
+		n = 4
+	}
+	var seqs [][]c15op
+	for _, perm := range [][]string{{"P", "Q", "S"}, {"P", "S", "Q"}, {"Q", "P", "S"}, {"Q", "S", "P"}, {"S", "P", "Q"}, {"S", "Q", "P"}} {
+		prefix := []c15op{setup, att[perm[0]], att[perm[1]], att[perm[2]]}
+		var rec func(seq []c15op)
+		rec = func(seq []c15op) {
+			if len(seq) == len(prefix)+n {
+				seqs = append(seqs, append([]c15op(nil), seq...))
+				return
+			}
+			for _, o := range free {
+				rec(append(seq, o))
+			}
+		}
+		rec(prefix)
+	}
+	parallel(2*len(seqs), func(i2 int) {
+		i, trusting := i2/2, i2%2 == 1
+		if run.Expired() {
+			run.Cap("time budget: not all pool-order sequences run")
+			return
+		}
+		var names []string
+		if trusting {
+			names = append(names, "[trusting contractor]")
+		}
+		viol := ""
+		func() {
+			defer func() {
+				if r := recover(); r != nil {
+					viol = fmt.Sprintf("c15:panic|%v", r)
+				}
+			}()
+			c := newC15World(trusting)
+			defer c.w.Close()
+			for _, o := range seqs[i] {
+				names = append(names, o.name)
+				before := c.w.Snap(c.contract.ID, nil, nil)
+				c.w.Con.Take()
+				c.w.Sec.Take()
+				if v := o.run(c); v != "" {
+					viol = v
+					return
+				}
+				if v := c.checkLedger(o.name, before); v != "" {
+					viol = v
+					return
+				}
+			}
+			run.Distinct("pool-order", fmt.Sprint(c.acct, c.attached))
+		}()
+		run.Add(int64(len(names)), int64(len(names)), 1, int64(len(names)))
+		if viol != "" {
+			parts := strings.SplitN(viol, "|", 2)
+			run.Violate(parts[0], fmt.Sprintf("ops %v: %s", names, parts[1]), map[string]any{"ops": names})
+		}
+	})
+	return len(seqs)
 }
 
 // everCredited: pools auto-create on first credit; a pool with zero balance that was credited exists.
@@ -444,10 +533,11 @@ func c15() {
 			run.Violate(parts[0], fmt.Sprintf("ops %v: %s", names, parts[1]), map[string]any{"ops": names})
 		}
 	})
+	run.Extra["pool_order_sequences"] = c15PoolOrder()
 	run.DistinctN = int64(len(outcomes))
 	run.Extra["sequences"] = len(seqs)
 	run.Extra["alphabet"] = len(ops)
-	run.Rule = fmt.Sprintf("every sequence of one funding step (fund A with R-1/R/R+1/3R where R is the price of a 64-byte read, or a pool replenish) followed by %d operations from a %d-entry alphabet: fund A/B at R-1,R,R+1, replenish accounts/pools to R or 2R, attach pool (valid, wrong signer, expired), detach (account key, pool key, wrong key), read for offsets {0,32,64} x lengths {32,64,128}, write, verify; against the real server with one real 4 MiB sector; distinct = distinct final (balances, attachments) ledgers", seqLen, len(ops))
+	run.Rule = fmt.Sprintf("every sequence of one funding step (fund A with R-1/R/R+1/3R where R is the price of a 64-byte read, or a pool replenish) followed by %d operations from a %d-entry alphabet: fund A/B at R-1,R,R+1, replenish accounts/pools to R or 2R, attach pool (valid, wrong signer, expired), detach (account key, pool key, wrong key), read for offsets {0,32,64} x lengths {32,64,128}, write, verify; against the real server with one real 4 MiB sector; plus pool-order scenarios: three pools holding one read each attached to an empty account in each of the 6 orders, followed by every sequence of 3 (thorough: 4) operations over {detach P, detach Q, detach S, read, attach P, attach Q}; distinct = distinct final (balances, attachments) ledgers", seqLen, len(ops))
 	run.Explanation = "After every operation the double-entry ledger is rebuilt from the recorded Contractor/Sectors calls: every credit equals the renter->host transfer of the renter-signed revision committed in the same call; every successful debit is followed by exactly one sector read/store and vice versa; model balances (own balance first, then attached pools in attachment order) equal the host's and the RPCAccountBalance answers; insufficient drawable funds deliver no data and debit nothing; replenish tops up exactly to the target; attach/detach only with a valid signature by an allowed, unexpired key."
 	run.Assumptions = []string{"go.sia.tech/core price arithmetic and request validation are trusted", "balances are probed at R-1/R/R+1 of the 64-byte read price; other prices follow the same code path"}
 }
